@@ -78,6 +78,15 @@ def full_stage(chk, pid, tier, seed):
             opts["constraints"]["disable"]["start_time_windows"] = False
             meta["t%d" % i] = (inp, opts)
             blocks.append(("t%d" % i, GF.case_lines(inp, opts, {"iterations": 60, "duration_ms": 2500, "runs": 1, "starts": 1, "output": 2})))
+    if pid in ("C03", "C20"):
+        # ids used where they do not belong: an initial stop naming an alternate the vehicle does not list, a relation naming an
+        # alternate, a stop and an alternate sharing an id - rejected since the repairs b0cd388 / 26a9936 / e1d68a9; before, the model
+        # was built with the FIRST stop of the input in that place
+        for i in range(45 if tier == "quick" else 900):
+            base, opts, feats = GF.gen_full(rng, "small", force={"alternates": False, "groups": False, "mixing": False})
+            inp, kind = GF.mutate(rng, base, only=["initial_foreign_alternate", "precedes_alternate", "stop_alt_same_id"][i % 3])
+            meta["m%d" % i] = (inp, opts)
+            blocks.append(("m%d" % i, GF.case_lines(inp, opts, {"iterations": 30, "duration_ms": 1500, "runs": 1, "starts": 1, "output": 2})))
     if pid == "C05":
         # objective terms that the general stream seldom switches on: capacity excess as an objective (constraint off for one or
         # all resources), min-stops shortfall, stop balance
